@@ -321,7 +321,46 @@ def standin_pauli_sums(tier, seed):
                 cases=cases, distinct=cases, failures=len(fails), exhaustive=False, _fails=uniq[:3])
 standin_pauli_sums.prop = "C14"
 
-STANDINS = [standin_algebra, standin_conjugation, standin_expectation_and_phasor, standin_pauli_sums]
+def standin_combination_powers(tier, seed):
+    """integer powers of linear combinations of Pauli gates / Pauli sums equal the matrix power (coefficients incl. the cases where the odd
+    part of the binomial expansion cancels exactly)"""
+    import itertools
+    import cirq
+
+    rng = random.Random(seed + 3)
+    cases, fails = 0, []
+    X, Y, Z, I = (cirq.unitary(g) for g in (cirq.X, cirq.Y, cirq.Z, cirq.I))
+    vals = [0, 1, -1, 1j, 0.5, 0.3 + 0.2j, 2]
+    combos = list(itertools.product(vals, repeat=4))
+    if tier == "quick":
+        combos = rng.sample(combos, 300)
+    q = cirq.LineQubit(0)
+    for ai, ax, ay, az in combos:
+        M = ai * I + ax * X + ay * Y + az * Z
+        for k in range(0, 6):
+            cases += 1
+            b = cirq.pow_pauli_combination(complex(ai), complex(ax), complex(ay), complex(az), k)
+            got = b[0] * I + b[1] * X + b[2] * Y + b[3] * Z
+            if not np.allclose(got, np.linalg.matrix_power(M, k), atol=1e-8):
+                fails.append(dict(args=dict(coefficients=(ai, ax, ay, az), exponent=k), failed="pow_pauli_combination", clause="pow_pauli_combination is not the matrix power of aI + bX + cY + dZ"))
+                break
+        if any(v != 0 for v in (ai, ax, ay, az)):
+            lc = cirq.LinearCombinationOfGates({cirq.I: ai, cirq.X: ax, cirq.Y: ay, cirq.Z: az})
+            k = rng.randrange(0, 6)
+            cases += 1
+            try:
+                gm = (lc ** k).matrix()
+            except Exception:
+                continue
+            if gm.shape == M.shape and not np.allclose(gm, np.linalg.matrix_power(M, k), atol=1e-8):
+                fails.append(dict(args=dict(combination=repr(lc), exponent=k), failed="linear-combination-power", clause="LinearCombinationOfGates ** k is not the matrix power"))
+        if len(fails) >= 3:
+            break
+    return dict(function="cirq-core/cirq/linalg/operator_spaces.py:pow_pauli_combination + ops/linear_combinations.py:LinearCombinationOfGates.__pow__", case="combination-powers",
+                bound="coefficient 4-tuples over {0, +-1, i, 0.5, 0.3+0.2i, 2} (all 2401 in the thorough tier) x exponents 0..5", cases=cases, distinct=cases, failures=len(fails),
+                exhaustive=(tier != "quick"), _fails=fails[:3])
+standin_combination_powers.prop = "C14"
+STANDINS = [standin_algebra, standin_conjugation, standin_expectation_and_phasor, standin_pauli_sums, standin_combination_powers]
 
 NOT_COVERED = [
     "PauliString.__mul__/_imul_helper as a whole (loop over the factors), DensePauliString.__mul__/__pow__, _calc_conjugation, PauliSum algebra: bounded only",
